@@ -2,6 +2,39 @@
 include!("../../../../engine/src_trait.rs");
 use bstr::ByteSlice;
 
+/// dependency contract MEMCHR: memchr::memchr2(a, b, h) is the position of the first byte of h equal to a or b
+/// (the real implementation dispatches to SSE2/AVX2 code that CBMC cannot execute within the budget)
+#[allow(dead_code)]
+fn spec_memchr2(n1: u8, n2: u8, h: &[u8]) -> Option<usize> {
+    let mut i = 0;
+    while i < h.len() { if h[i] == n1 || h[i] == n2 { return Some(i); } i += 1; }
+    None
+}
+/// dependency contract BYTESET: bstr's `find_byteset` (bstr::byteset::find) returns the position of the first byte of the
+/// haystack that is a member of the byteset. Its real body dispatches to the memchr crate's SSE2/AVX2 routines, which CBMC
+/// cannot execute within the budget (and Kani applied only two of three stubs for memchr/memchr2/memchr3).
+#[allow(dead_code)]
+fn spec_byteset_find(haystack: &[u8], byteset: &[u8]) -> Option<usize> {
+    let mut i = 0;
+    while i < haystack.len() {
+        let mut k = 0;
+        while k < byteset.len() { if haystack[i] == byteset[k] { return Some(i); } k += 1; }
+        i += 1;
+    }
+    None
+}
+#[allow(dead_code)]
+fn spec_memchr(n1: u8, h: &[u8]) -> Option<usize> {
+    let mut i = 0;
+    while i < h.len() { if h[i] == n1 { return Some(i); } i += 1; }
+    None
+}
+#[allow(dead_code)]
+fn spec_memchr3(n1: u8, n2: u8, n3: u8, h: &[u8]) -> Option<usize> {
+    let mut i = 0;
+    while i < h.len() { if h[i] == n1 || h[i] == n2 || h[i] == n3 { return Some(i); } i += 1; }
+    None
+}
 #[allow(dead_code)]
 fn no_cpuid(_leaf: u32, _sub: u32) -> std::arch::x86_64::CpuidResult { std::arch::x86_64::CpuidResult { eax: 0, ebx: 0, ecx: 0, edx: 0 } }
 #[allow(dead_code)]
@@ -106,35 +139,35 @@ fn h_single<const L: usize, S: Src>(s: &mut S) {
 }
 
 harnesses! {
-    #[kani::proof] #[kani::unwind(12)] #[kani::stub(std::arch::x86_64::__cpuid_count, no_cpuid)] #[kani::stub(std::arch::x86_64::__cpuid, no_cpuid1)] unquoted_0 => h_unquoted::<0, _>;
-    #[kani::proof] #[kani::unwind(12)] #[kani::stub(std::arch::x86_64::__cpuid_count, no_cpuid)] #[kani::stub(std::arch::x86_64::__cpuid, no_cpuid1)] unquoted_3 => h_unquoted::<3, _>;
-    #[kani::proof] #[kani::unwind(12)] #[kani::stub(std::arch::x86_64::__cpuid_count, no_cpuid)] #[kani::stub(std::arch::x86_64::__cpuid, no_cpuid1)] unquoted_5 => h_unquoted::<5, _>;
-    #[kani::proof] #[kani::unwind(12)] #[kani::stub(std::arch::x86_64::__cpuid_count, no_cpuid)] #[kani::stub(std::arch::x86_64::__cpuid, no_cpuid1)] any_1 => h_any::<1, _>;
-    #[kani::proof] #[kani::unwind(12)] #[kani::stub(std::arch::x86_64::__cpuid_count, no_cpuid)] #[kani::stub(std::arch::x86_64::__cpuid, no_cpuid1)] any_2 => h_any::<2, _>;
-    #[kani::proof] #[kani::unwind(12)] #[kani::stub(std::arch::x86_64::__cpuid_count, no_cpuid)] #[kani::stub(std::arch::x86_64::__cpuid, no_cpuid1)] any_3 => h_any::<3, _>;
-    #[kani::proof] #[kani::unwind(12)] #[kani::stub(std::arch::x86_64::__cpuid_count, no_cpuid)] #[kani::stub(std::arch::x86_64::__cpuid, no_cpuid1)] any_4 => h_any::<4, _>;
-    #[kani::proof] #[kani::unwind(12)] #[kani::stub(std::arch::x86_64::__cpuid_count, no_cpuid)] #[kani::stub(std::arch::x86_64::__cpuid, no_cpuid1)] quoted_empty_r0 => h_quoted::<0, 0, 0, 2, _>;
-    #[kani::proof] #[kani::unwind(12)] #[kani::stub(std::arch::x86_64::__cpuid_count, no_cpuid)] #[kani::stub(std::arch::x86_64::__cpuid, no_cpuid1)] quoted_empty_r1 => h_quoted::<0, 0, 1, 3, _>;
-    #[kani::proof] #[kani::unwind(12)] #[kani::stub(std::arch::x86_64::__cpuid_count, no_cpuid)] #[kani::stub(std::arch::x86_64::__cpuid, no_cpuid1)] quoted_p_r0 => h_quoted::<1, 0, 0, 3, _>;
-    #[kani::proof] #[kani::unwind(12)] #[kani::stub(std::arch::x86_64::__cpuid_count, no_cpuid)] #[kani::stub(std::arch::x86_64::__cpuid, no_cpuid1)] quoted_e_r0 => h_quoted::<1, 1, 0, 4, _>;
-    #[kani::proof] #[kani::unwind(12)] #[kani::stub(std::arch::x86_64::__cpuid_count, no_cpuid)] #[kani::stub(std::arch::x86_64::__cpuid, no_cpuid1)] quoted_o_r0 => h_quoted::<1, 2, 0, 6, _>;
-    #[kani::proof] #[kani::unwind(12)] #[kani::stub(std::arch::x86_64::__cpuid_count, no_cpuid)] #[kani::stub(std::arch::x86_64::__cpuid, no_cpuid1)] quoted_p_r1 => h_quoted::<1, 0, 1, 4, _>;
-    #[kani::proof] #[kani::unwind(12)] #[kani::stub(std::arch::x86_64::__cpuid_count, no_cpuid)] #[kani::stub(std::arch::x86_64::__cpuid, no_cpuid1)] quoted_e_r1 => h_quoted::<1, 1, 1, 5, _>;
-    #[kani::proof] #[kani::unwind(12)] #[kani::stub(std::arch::x86_64::__cpuid_count, no_cpuid)] #[kani::stub(std::arch::x86_64::__cpuid, no_cpuid1)] quoted_o_r1 => h_quoted::<1, 2, 1, 7, _>;
-    #[kani::proof] #[kani::unwind(14)] #[kani::stub(std::arch::x86_64::__cpuid_count, no_cpuid)] #[kani::stub(std::arch::x86_64::__cpuid, no_cpuid1)] quoted_pp_r2 => h_quoted::<2, 0, 2, 6, _>;
-    #[kani::proof] #[kani::unwind(14)] #[kani::stub(std::arch::x86_64::__cpuid_count, no_cpuid)] #[kani::stub(std::arch::x86_64::__cpuid, no_cpuid1)] quoted_ep_r2 => h_quoted::<2, 1, 2, 7, _>;
-    #[kani::proof] #[kani::unwind(14)] #[kani::stub(std::arch::x86_64::__cpuid_count, no_cpuid)] #[kani::stub(std::arch::x86_64::__cpuid, no_cpuid1)] quoted_op_r2 => h_quoted::<2, 2, 2, 9, _>;
-    #[kani::proof] #[kani::unwind(14)] #[kani::stub(std::arch::x86_64::__cpuid_count, no_cpuid)] #[kani::stub(std::arch::x86_64::__cpuid, no_cpuid1)] quoted_pe_r2 => h_quoted::<2, 3, 2, 7, _>;
-    #[kani::proof] #[kani::unwind(14)] #[kani::stub(std::arch::x86_64::__cpuid_count, no_cpuid)] #[kani::stub(std::arch::x86_64::__cpuid, no_cpuid1)] quoted_ee_r2 => h_quoted::<2, 4, 2, 8, _>;
-    #[kani::proof] #[kani::unwind(14)] #[kani::stub(std::arch::x86_64::__cpuid_count, no_cpuid)] #[kani::stub(std::arch::x86_64::__cpuid, no_cpuid1)] quoted_oe_r2 => h_quoted::<2, 5, 2, 10, _>;
-    #[kani::proof] #[kani::unwind(14)] #[kani::stub(std::arch::x86_64::__cpuid_count, no_cpuid)] #[kani::stub(std::arch::x86_64::__cpuid, no_cpuid1)] quoted_po_r2 => h_quoted::<2, 6, 2, 9, _>;
-    #[kani::proof] #[kani::unwind(14)] #[kani::stub(std::arch::x86_64::__cpuid_count, no_cpuid)] #[kani::stub(std::arch::x86_64::__cpuid, no_cpuid1)] quoted_eo_r2 => h_quoted::<2, 7, 2, 10, _>;
-    #[kani::proof] #[kani::unwind(14)] #[kani::stub(std::arch::x86_64::__cpuid_count, no_cpuid)] #[kani::stub(std::arch::x86_64::__cpuid, no_cpuid1)] quoted_oo_r2 => h_quoted::<2, 8, 2, 12, _>;
-    #[kani::proof] #[kani::unwind(12)] #[kani::stub(std::arch::x86_64::__cpuid_count, no_cpuid)] #[kani::stub(std::arch::x86_64::__cpuid, no_cpuid1)] single_0 => h_single::<0, _>;
-    #[kani::proof] #[kani::unwind(12)] #[kani::stub(std::arch::x86_64::__cpuid_count, no_cpuid)] #[kani::stub(std::arch::x86_64::__cpuid, no_cpuid1)] single_1 => h_single::<1, _>;
-    #[kani::proof] #[kani::unwind(14)] #[kani::stub(std::arch::x86_64::__cpuid_count, no_cpuid)] #[kani::stub(std::arch::x86_64::__cpuid, no_cpuid1)] single_2 => h_single::<2, _>;
-    #[kani::proof] #[kani::unwind(18)] #[kani::stub(std::arch::x86_64::__cpuid_count, no_cpuid)] #[kani::stub(std::arch::x86_64::__cpuid, no_cpuid1)] single_3 => h_single::<3, _>;
-    #[kani::proof] #[kani::unwind(22)] #[kani::stub(std::arch::x86_64::__cpuid_count, no_cpuid)] #[kani::stub(std::arch::x86_64::__cpuid, no_cpuid1)] single_4 => h_single::<4, _>;
+    #[kani::proof] #[kani::unwind(12)] unquoted_0 => h_unquoted::<0, _>;
+    #[kani::proof] #[kani::unwind(12)] unquoted_3 => h_unquoted::<3, _>;
+    #[kani::proof] #[kani::unwind(12)] unquoted_5 => h_unquoted::<5, _>;
+    #[kani::proof] #[kani::unwind(12)] #[kani::stub(bstr::byteset::find, spec_byteset_find)] any_1 => h_any::<1, _>;
+    #[kani::proof] #[kani::unwind(12)] #[kani::stub(bstr::byteset::find, spec_byteset_find)] any_2 => h_any::<2, _>;
+    #[kani::proof] #[kani::unwind(12)] #[kani::stub(bstr::byteset::find, spec_byteset_find)] any_3 => h_any::<3, _>;
+    #[kani::proof] #[kani::unwind(12)] #[kani::stub(bstr::byteset::find, spec_byteset_find)] any_4 => h_any::<4, _>;
+    #[kani::proof] #[kani::unwind(12)] #[kani::stub(bstr::byteset::find, spec_byteset_find)] quoted_empty_r0 => h_quoted::<0, 0, 0, 2, _>;
+    #[kani::proof] #[kani::unwind(12)] #[kani::stub(bstr::byteset::find, spec_byteset_find)] quoted_empty_r1 => h_quoted::<0, 0, 1, 3, _>;
+    #[kani::proof] #[kani::unwind(5)] #[kani::stub(bstr::byteset::find, spec_byteset_find)] quoted_p_r0 => h_quoted::<1, 0, 0, 3, _>;
+    #[kani::proof] #[kani::unwind(12)] #[kani::stub(bstr::byteset::find, spec_byteset_find)] quoted_e_r0 => h_quoted::<1, 1, 0, 4, _>;
+    #[kani::proof] #[kani::unwind(12)] #[kani::stub(bstr::byteset::find, spec_byteset_find)] quoted_o_r0 => h_quoted::<1, 2, 0, 6, _>;
+    #[kani::proof] #[kani::unwind(12)] #[kani::stub(bstr::byteset::find, spec_byteset_find)] quoted_p_r1 => h_quoted::<1, 0, 1, 4, _>;
+    #[kani::proof] #[kani::unwind(12)] #[kani::stub(bstr::byteset::find, spec_byteset_find)] quoted_e_r1 => h_quoted::<1, 1, 1, 5, _>;
+    #[kani::proof] #[kani::unwind(12)] #[kani::stub(bstr::byteset::find, spec_byteset_find)] quoted_o_r1 => h_quoted::<1, 2, 1, 7, _>;
+    #[kani::proof] #[kani::unwind(14)] #[kani::stub(bstr::byteset::find, spec_byteset_find)] quoted_pp_r2 => h_quoted::<2, 0, 2, 6, _>;
+    #[kani::proof] #[kani::unwind(14)] #[kani::stub(bstr::byteset::find, spec_byteset_find)] quoted_ep_r2 => h_quoted::<2, 1, 2, 7, _>;
+    #[kani::proof] #[kani::unwind(14)] #[kani::stub(bstr::byteset::find, spec_byteset_find)] quoted_op_r2 => h_quoted::<2, 2, 2, 9, _>;
+    #[kani::proof] #[kani::unwind(14)] #[kani::stub(bstr::byteset::find, spec_byteset_find)] quoted_pe_r2 => h_quoted::<2, 3, 2, 7, _>;
+    #[kani::proof] #[kani::unwind(14)] #[kani::stub(bstr::byteset::find, spec_byteset_find)] quoted_ee_r2 => h_quoted::<2, 4, 2, 8, _>;
+    #[kani::proof] #[kani::unwind(14)] #[kani::stub(bstr::byteset::find, spec_byteset_find)] quoted_oe_r2 => h_quoted::<2, 5, 2, 10, _>;
+    #[kani::proof] #[kani::unwind(14)] #[kani::stub(bstr::byteset::find, spec_byteset_find)] quoted_po_r2 => h_quoted::<2, 6, 2, 9, _>;
+    #[kani::proof] #[kani::unwind(14)] #[kani::stub(bstr::byteset::find, spec_byteset_find)] quoted_eo_r2 => h_quoted::<2, 7, 2, 10, _>;
+    #[kani::proof] #[kani::unwind(14)] #[kani::stub(bstr::byteset::find, spec_byteset_find)] quoted_oo_r2 => h_quoted::<2, 8, 2, 12, _>;
+    #[kani::proof] #[kani::unwind(12)] #[kani::stub(bstr::byteset::find, spec_byteset_find)] single_0 => h_single::<0, _>;
+    #[kani::proof] #[kani::unwind(5)] #[kani::stub(bstr::byteset::find, spec_byteset_find)] single_1 => h_single::<1, _>;
+    #[kani::proof] #[kani::unwind(14)] #[kani::stub(bstr::byteset::find, spec_byteset_find)] single_2 => h_single::<2, _>;
+    #[kani::proof] #[kani::unwind(18)] #[kani::stub(bstr::byteset::find, spec_byteset_find)] single_3 => h_single::<3, _>;
+    #[kani::proof] #[kani::unwind(22)] #[kani::stub(bstr::byteset::find, spec_byteset_find)] single_4 => h_single::<4, _>;
 }
 
 #[cfg(not(kani))]
